@@ -138,15 +138,16 @@ Proof.
     pose proof (step_refines z (r_store r) a o Hs) as Hst.
     destruct (spec_step z a o) as [[x a']|].
     + destruct Hst as (e & s' & Hst & Hs' & Hlf). rewrite Hst.
-      match goal with |- context [run_from _ h ?R] => specialize (IH R a') end.
-      destruct IH as (I1 & I2 & I3 & I4); cbn [r_err r_store r_log]; auto.
-      { intro w. unfold lifecycle. rewrite proj_app, fold_left_app.
+      match goal with |- context [run_from _ h ?R] => assert (Hl' : linv R) end.
+      { intro w. cbn [r_log r_store]. unfold lifecycle. rewrite proj_app, fold_left_app.
         fold (lifecycle w (r_log r)). rewrite Hl. apply Hlf. }
+      match goal with |- context [run_from _ h ?R] =>
+        destruct (IH R a' eq_refl Hs' Hl') as (I1 & I2 & I3 & I4) end.
       destruct (spec_run z a' h) as [af l]. cbn [fst snd] in *.
       repeat split; auto. rewrite I3. cbn [r_outs]. rewrite <- app_assoc. reflexivity.
     + rewrite Hst.
-      match goal with |- context [run_from _ h ?R] => specialize (IH R a) end.
-      destruct IH as (I1 & I2 & I3 & I4); cbn [r_err r_store r_log]; auto.
+      match goal with |- context [run_from _ h ?R] =>
+        destruct (IH R a eq_refl Hs Hl) as (I1 & I2 & I3 & I4) end.
       destruct (spec_run z a h) as [af l]. cbn [fst snd] in *.
       repeat split; auto. rewrite I3. cbn [r_outs]. rewrite <- app_assoc. reflexivity.
 Qed.
